@@ -6,7 +6,8 @@ from props import pyref
 class P(StreamProperty):
     pid = 'C15'
     module = 'OpenFecVerif.Props.C15'
-    theorems = ['C15_flag_def', 'C15_same_for_both_roles', 'C15_sum_of_equations', 'C15_truthful']
+    theorems = ['C15_flag_def', 'C15_same_for_both_roles', 'C15_sum_of_equations', 'C15_truthful', 'C15_lastNullCheck_every_configuration',
+                'C15_truthful_every_configuration']
     rule = ('encoder and decoder sessions with equal parameters over the LDPC grid restricted to even N1 (plus odd N1 as the negative class), identity and random payloads: '
             'the flag reported by both roles, and the last repair symbol of the real encoder; oracle: flag true => last repair symbol all zeros, flags of both roles equal; '
             'non-trivial = distinct (k,r,N1,seed,payload) with the flag true')
